@@ -45,6 +45,7 @@ def judge_pointwise(case, sat_level=False):
     prog.append({'id': 'J', 'op': 'intersect', 'a': 'B', 'b': 'A'})
     for r in ('A', 'B', 'I', 'J'):
         prog.append({'id': 's' + r, 'op': 'satisfies', 'r': r, 'v': 'v'})
+        prog.append({'id': 'a' + r, 'op': 'adm', 'r': r, 'v': 'v'})      # bounds membership: overlap with the exact range `=v`
 
     def judge(native):
         ok, why = built(native, prog)
@@ -64,6 +65,11 @@ def judge_pointwise(case, sat_level=False):
         else:
             if (sA and sB and not sI) or (sI and not (sA or sB)):
                 return 'confirmed', txt
+            aA, aB = bool(native.get('aA')), bool(native.get('aB'))
+            aI = bool(native.get('aI')) if (native.get('I') or {}).get('some') else False
+            aJ = bool(native.get('aJ')) if (native.get('J') or {}).get('some') else False
+            if aI != (aA and aB) or aI != aJ:
+                return 'confirmed', txt + ' | within the bounds (allows_any(=v)): A=%s B=%s A∩B=%s B∩A=%s' % (aA, aB, aI, aJ)
         return 'mismatch', txt
     return prog, judge
 
